@@ -27,9 +27,9 @@ P = {
  ["the composition lemma 'no admitted passing route ranks before the selected one' at SelectRoute level (each link is a proved contract; the chained quantifier instantiation was not discharged)", "registration-order independence when different shapes score equal (D10) or JSR311 keys tie (sort.Sort is not stable)"],
  TECH + ", inductive lemmas"),
 "C04": (True,
- "Deductive proof that tokenizePath yields the token sequence of the path, that untokenizePath joins the remaining tokens with '/', that defaultPathProcessor.ExtractParameters is total on every admitted (route, path) pair, that RouterJSR311.extractParams/ExtractParameters bind exactly the declared names to the groups of the two matches (route variables win, nothing else bound), that concatPath/postBuild/Build produce a route whose tokens are the tokens of root+sub-path, and that dispatch extracts with the processor belonging to the router that selected the route and hands the result to the request.",
+ "Deductive proof that tokenizePath yields the token sequence of the path, that untokenizePath joins the remaining tokens with '/', that the CurlyRouter matcher establishes the admission the extraction relies on, that defaultPathProcessor.ExtractParameters on every admitted (route, path) pair binds every declared variable and nothing else, each value being exactly the URL text of a token declaring that name (the segment minus literal suffix and custom-verb suffix; the remaining path joined by '/' for a tail wildcard), that RouterJSR311.extractParams/ExtractParameters bind exactly the declared names to the groups of the two matches (route variables win, nothing else bound), that concatPath/postBuild/Build produce a route whose tokens are the tokens of root+sub-path, and that dispatch extracts with the processor belonging to the router that selected the route and hands the result to the request.",
  COMMON_ASSUME + "models of strings.Split/Trim as recursive definitions; A-JSR (which text a group captures); newPathExpression/nameOfFunction trusted.",
- ["exact map contents produced by defaultPathProcessor.ExtractParameters (safety and frame only: the string-level proof did not discharge)", "round-trip 'substituting back reproduces the path'"],
+ ["which of two tokens declaring the same name wins under the default processor", "the round-trip formulation 'substituting back reproduces the path' (the per-variable statement is proved instead)", "what a JSR311 group captures (A-JSR)"],
  TECH),
 "C06": (True,
  "Deductive proof of FilterChain.ProcessFilter's contract (exactly one dynamic call: the filter at the old index with the index advanced first, or the target once filters are exhausted; same request/response passed) including exceptional exits, of dispatch's construction of the chain (container filters, then service filters, then route filters, then the route function; error path runs container filters only), of HandleWithFilter's chain (exactly the container filters around the plain handler), and of the net/http middleware adapter closure.",
